@@ -13,7 +13,9 @@ import check, gens
 from check import f2b, b2f
 
 GEN = ['numeric', 'tables']
-LEAN_MODULES = ['XfabVerif.Proofs.C07']
+LEAN_MODULES = ['XfabVerif.Proofs.C07', 'XfabVerif.Proofs.C07Tables']
+# definitions the hand-written model mirrors (see harness/pins.py): a source change breaks the tie
+PINS = ['xfab/structure.py:StructureFactor']
 LEAN_DRIVER_MODULES = ['XfabVerif.Model.SFFloat']
 RULE = ("groups BY NAME: quick = 40 settings stratified over the seven crystal systems (always >= 1 rhombohedral setting and >= 1 "
         "F-centred cubic group with 192 operations), thorough = all 230 names + the 7 rhombohedral settings; cell conforming to the "
